@@ -212,6 +212,7 @@ def _tree_invariants(c: Case, mode: str, pairs) -> list[str]:  # noqa: PLR0912
                 bad.append("tokens() not balanced")
     if stack:
         bad.append("tokens() not balanced (unclosed)")
+    n_tokens = sum(1 for _ in pairs.tokens())
     # flatten() is the pre-order
     pre = []
 
@@ -225,6 +226,8 @@ def _tree_invariants(c: Case, mode: str, pairs) -> list[str]:  # noqa: PLR0912
     fl = list(pairs.flatten())
     if len(fl) != len(pre) or any(a is not b for a, b in zip(fl, pre)):
         bad.append("flatten() is not the pre-order")
+    if n_tokens != 2 * len(pre):
+        bad.append(f"tokens() has {n_tokens} tokens for {len(pre)} pairs (flatten() is the pre-order of the Start tokens)")
     # the same accessors on every inner(): flatten() pre-order, tokens() balanced, len / indexing / iteration agree
     for p in pre:
         if not p.children:
